@@ -103,12 +103,20 @@ Ltac tc_side Htc :=
 Ltac nf_timers Htc :=
   try (rewrite after_full_nf in * by tc_side Htc);
   try (rewrite start_timer_nf in * by tc_side Htc);
+  try (rewrite stop_timer_nf in * by tc_side Htc);
   unfold stopped in *.
 
 (* case analysis of one transition: afterwards s' is an explicit stack of setters on s *)
 Ltac step_cases H Htc :=
   match type of H with step _ ?l = Some _ => destruct l end;
-  simpl in H; brk H; norm_setc; nf_timers Htc; simpl in *; goal_cases.
+  simpl in H; brk H; norm_setc;
+  repeat match goal with
+         | Hx : stop_timer _ = Some _ |- _ =>
+             rewrite stop_timer_nf in Hx by tc_side Htc; inversion Hx; subst; clear Hx
+         | Hx : stop_timer _ = None |- _ =>
+             rewrite stop_timer_nf in Hx by tc_side Htc; discriminate Hx
+         end;
+  nf_timers Htc; simpl in *; goal_cases.
 
 Ltac zb :=
   repeat match goal with
@@ -239,7 +247,6 @@ Proof.
   all: try first [ congruence | lia | (split; reflexivity) ].
   - exfalso. specialize (Hbxc H3). destruct (bpc_ s); simpl in *; try discriminate;
       assert (Hx : cclosed s = true) by (apply Hbxc; auto); congruence.
-  - match goal with Hx : (_ || _)%bool = false |- _ => apply orb_false_iff in Hx; exact (proj1 Hx) end.
 Qed.
 
 (* ------------------------------------------------------------------ *)
@@ -669,6 +676,26 @@ Section Clauses.
 End Clauses.
 
 (* ------------------------------------------------------------------ *)
+(* the ghost flag [stale] is never set by the (fixed) code, so the two  *)
+(* clauses hold on all runs                                            *)
+(* ------------------------------------------------------------------ *)
+Lemma stale_never mw m calls nctx s : Reach mw m calls nctx s -> stale s = false.
+Proof.
+  revert s. apply (reach_inv (fun s => stale s = false)); [reflexivity|].
+  intros s0 l s' Hr Hs H. pose proof (g_tc _ (G1_reach _ _ _ _ _ Hr)) as Htc.
+  step_cases H Htc; simpl; assumption.
+Qed.
+
+Lemma nonempty_all mw m calls nctx s d :
+  Reach mw m calls nctx s -> In d (delivered s) -> d_batch d <> [].
+Proof. intros Hr. apply (nonempty_partial _ _ _ _ s d Hr). eapply stale_never; eauto. Qed.
+
+Lemma maxwait_all mw m calls nctx s d :
+  Reach mw m calls nctx s -> In d (delivered s) -> timed (d_reason d) = true ->
+  d_ann d = true /\ d_start d + maxw s <= d_clock d.
+Proof. intros Hr. apply (maxwait_partial _ _ _ _ s d Hr). eapply stale_never; eauto. Qed.
+
+(* ------------------------------------------------------------------ *)
 (* a consumer call whose context expires                               *)
 (* ------------------------------------------------------------------ *)
 (* the labels of consumer call k other than receiving a batch *)
@@ -861,15 +888,19 @@ Proof.
 Qed.
 
 (* ------------------------------------------------------------------ *)
-(* witnesses: the faithful model violates "every batch is non-empty"   *)
-(* and "underfilled only after maxWait" through a stale timer          *)
+(* witnesses: the code before the fix ([step_prefix]) violates "every   *)
+(* batch is non-empty" and "underfilled only after maxWait" through a   *)
+(* stale timer                                                         *)
 (* ------------------------------------------------------------------ *)
 Definition run_from (mw : Z) (m : fmode) (calls : list nat) (nctx : nat) (ls : list lab) : st :=
   match run qstep (init mw m calls nctx) ls with Some s => s | None => init mw m calls nctx end.
 
+Definition run_prefix (mw : Z) (m : fmode) (calls : list nat) (nctx : nat) (ls : list lab) : st :=
+  match run step_prefix (init mw m calls nctx) ls with Some s => s | None => init mw m calls nctx end.
+
 (* Batch(s, maxWait = 10, batchSize = 5): item 1 arrives; call 0 announces itself and starts the
    timer (deadline 10), its context expires; at clock 11 - the timer has not fired yet - call 1
-   announces itself: time.Since(batchStart) > maxWait, so the batch is flushed WITHOUT stopTimer;
+   announces itself: time.Since(batchStart) > maxWait, so the old code flushed WITHOUT stopTimer;
    the stale timer then fires and the `case <-timerC` arm flushes the new, empty batch to call 2. *)
 Definition w_stale_prefix : list lab :=
   [LRelease (KItem 1); LSrcNextEnter; LSrcNextExit (RItem 1); TRecvItem; TFullEval;
@@ -886,33 +917,24 @@ Definition w_early : list lab :=
   w_stale_prefix ++ [LRelease (KItem 2); LSrcNextEnter; LSrcNextExit (RItem 2); TRecvItem; TFullEval;
                      TTimerFire; TTimerArm; LCallNext 2%nat; TFlushSend 2%nat; LRetNext 2%nat (CBatch [2])].
 
-Definition s_empty : st := run_from 10 (FBatch 5) [0; 1; 2]%nat 3 w_empty.
-Definition s_early : st := run_from 10 (FBatch 5) [0; 1; 2]%nat 3 w_early.
-
-Lemma s_empty_reach : Reach 10 (FBatch 5) [0; 1; 2]%nat 3 s_empty.
-Proof. exists w_empty. vm_compute. reflexivity. Qed.
-
-Lemma s_early_reach : Reach 10 (FBatch 5) [0; 1; 2]%nat 3 s_early.
-Proof. exists w_early. vm_compute. reflexivity. Qed.
-
-Lemma nonempty_refuted :
-  exists mw m calls nctx s d,
-    Reach mw m calls nctx s /\ In d (delivered s) /\ d_batch d = [] /\
-    result_of s (d_who d) = Some (CBatch []).
+Lemma old_code_refuted :
+  let i := init 10 (FBatch 5) [0; 1; 2]%nat 3 in
+  (exists s d, run step_prefix i w_empty = Some s /\ In d (delivered s) /\ d_batch d = [] /\
+               result_of s (d_who d) = Some (CBatch []))
+  /\ (exists s d, run step_prefix i w_early = Some s /\ In d (delivered s) /\
+                  d_batch d <> [] /\ zlen (d_batch d) < 5 /\ cclosed s = false /\
+                  timed (d_reason d) = true /\ d_ann d = false /\ d_clock d < d_start d + maxw s)
+  (* and the fixed code cannot follow either script: the timer is stopped, TTimerFire is disabled *)
+  /\ run step i w_empty = None /\ run step i w_early = None.
 Proof.
-  exists 10, (FBatch 5), [0; 1; 2]%nat, 3%nat, s_empty, (mkD 2 [] FCTimer 11 0 false).
-  split; [exact s_empty_reach|]. vm_compute. split; [right; left; reflexivity | split; reflexivity].
-Qed.
-
-Lemma maxwait_refuted :
-  exists mw m calls nctx s d,
-    Reach mw m calls nctx s /\ In d (delivered s) /\
-    d_batch d <> [] /\ zlen (d_batch d) < 5 /\ mode s = FBatch 5 /\ cclosed s = false /\
-    timed (d_reason d) = true /\ d_ann d = false /\ d_clock d < d_start d + maxw s.
-Proof.
-  exists 10, (FBatch 5), [0; 1; 2]%nat, 3%nat, s_early, (mkD 2 [2] FCTimer 11 11 false).
-  split; [exact s_early_reach|]. vm_compute.
-  split; [right; left; reflexivity|]. repeat split; try reflexivity. discriminate.
+  split; [|split; [|split]].
+  - exists (run_prefix 10 (FBatch 5) [0; 1; 2]%nat 3 w_empty), (mkD 2 [] FCTimer 11 0 false).
+    vm_compute. split; [reflexivity|]. split; [right; left; reflexivity | split; reflexivity].
+  - exists (run_prefix 10 (FBatch 5) [0; 1; 2]%nat 3 w_early), (mkD 2 [2] FCTimer 11 11 false).
+    vm_compute. split; [reflexivity|]. split; [right; left; reflexivity|].
+    repeat split; try reflexivity. discriminate.
+  - vm_compute. reflexivity.
+  - vm_compute. reflexivity.
 Qed.
 
 (* ------------------------------------------------------------------ *)
